@@ -340,3 +340,12 @@ impl<T: Transport> Session<T> {
             .map(|fut| async move { fut.await.map(|()| drop(self)) })
     }
 }
+
+#[cfg(bgpfu_verif)]
+impl<T: Transport> Session<T> {
+    /// Verification hook: establish a session over a caller-supplied transport.
+    #[allow(clippy::missing_errors_doc)]
+    pub async fn verif_new(transport: T) -> Result<Self, Error> {
+        Self::new(transport).await
+    }
+}
